@@ -9,6 +9,7 @@ import (
 	"encoding/json"
 	"encoding/xml"
 	"io"
+	"regexp"
 	"strings"
 
 	"golang.org/x/net/html"
@@ -18,49 +19,74 @@ import (
 
 func JSONValid(b []byte) bool { return json.Valid(b) }
 
-// XMLWellFormed reads every token with the strict decoder.
-func XMLWellFormed(b []byte) bool {
-	d := xml.NewDecoder(bytes.NewReader(b))
-	d.Strict = true
-	d.CharsetReader = func(label string, input io.Reader) (io.Reader, error) { return input, nil }
-	for {
-		_, err := d.RawToken()
-		if err == io.EOF {
-			break
-		}
-		if err != nil {
-			return false
-		}
+var xmlDeclRe = regexp.MustCompile(`^xml\s+version\s*=\s*("1\.[0-9]+"|'1\.[0-9]+')(\s+encoding\s*=\s*("[A-Za-z][A-Za-z0-9._-]*"|'[A-Za-z][A-Za-z0-9._-]*'))?(\s+standalone\s*=\s*("(yes|no)"|'(yes|no)'))?\s*$`)
+
+// xmlTokens reads every token with the strict decoder of encoding/xml and adds well-formedness rules that decoder does
+// not enforce: a markup declaration "<!...>" outside the DTD must be a DOCTYPE declaration before the first element, and the
+// target "xml" is reserved for the XML declaration at the very start.  The text is judged as a FRAGMENT (the minifiers
+// are used on fragments too, e.g. inline SVG): several top-level elements and top-level text are allowed, tags must match.
+func xmlTokens(b []byte, each func(t xml.Token)) bool {
+	const open, shut = "<verif-root>", "</verif-root>"
+	// the XML declaration and the DOCTYPE must stay in front of the synthetic root
+	head := 0
+	if m := regexp.MustCompile(`^(<\?xml[^>]*\?>)?\s*(<!DOCTYPE[^\[>]*(\[[^\]]*\])?[^>]*>)?`).FindIndex(b); m != nil {
+		head = m[1]
 	}
-	// RawToken does not check tag matching; Token does
-	d = xml.NewDecoder(bytes.NewReader(b))
+	doc := append(append(append(append([]byte{}, b[:head]...), open...), b[head:]...), shut...)
+	d := xml.NewDecoder(bytes.NewReader(doc))
 	d.Strict = true
 	d.CharsetReader = func(label string, input io.Reader) (io.Reader, error) { return input, nil }
+	depth, seenRoot, first := 0, false, true
 	for {
-		_, err := d.Token()
+		off := d.InputOffset()
+		t, err := d.Token()
 		if err == io.EOF {
-			return true
+			return depth == 0 && seenRoot
 		}
 		if err != nil {
 			return false
+		}
+		switch v := t.(type) {
+		case xml.Directive:
+			s := string(v)
+			if seenRoot || !strings.HasPrefix(s, "DOCTYPE") || len(s) < 9 || !strings.ContainsAny(s[7:8], " \t\r\n") {
+				return false
+			}
+		case xml.ProcInst:
+			if strings.EqualFold(v.Target, "xml") {
+				if !first || off != 0 || v.Target != "xml" || !xmlDeclRe.MatchString("xml "+strings.TrimSpace(string(v.Inst))) {
+					return false
+				}
+			}
+		case xml.StartElement:
+			if depth == 0 {
+				if seenRoot || v.Name.Local != "verif-root" {
+					return false // content after the synthetic root was closed: the input closed it itself
+				}
+				seenRoot = true
+			}
+			depth++
+		case xml.EndElement:
+			depth--
+		case xml.CharData:
+			if depth == 0 && len(bytes.TrimSpace(v)) > 0 {
+				return false
+			}
+		}
+		first = false
+		if each != nil && depth >= 1 {
+			each(t)
 		}
 	}
 }
 
+// XMLWellFormed judges a document or fragment.
+func XMLWellFormed(b []byte) bool { return xmlTokens(b, nil) }
+
 // SVGPaths returns the d attributes of path elements (nil, false when not well-formed).
 func SVGPaths(b []byte) ([][]byte, bool) {
-	d := xml.NewDecoder(bytes.NewReader(b))
-	d.Strict = true
-	d.CharsetReader = func(label string, input io.Reader) (io.Reader, error) { return input, nil }
 	var out [][]byte
-	for {
-		t, err := d.Token()
-		if err == io.EOF {
-			return out, true
-		}
-		if err != nil {
-			return nil, false
-		}
+	ok := xmlTokens(b, func(t xml.Token) {
 		if st, ok := t.(xml.StartElement); ok && st.Name.Local == "path" {
 			for _, a := range st.Attr {
 				if a.Name.Local == "d" && a.Name.Space == "" {
@@ -68,7 +94,11 @@ func SVGPaths(b []byte) ([][]byte, bool) {
 				}
 			}
 		}
+	})
+	if !ok {
+		return nil, false
 	}
+	return out, true
 }
 
 // ---------------------------------------------------------------- SVG path grammar (SVG 1.1, 8.3.9)
